@@ -1,6 +1,6 @@
 """C02 -- feature files round-trip (GFF3, TSV/CSV): cases, implementation driver, model terms, property oracle."""
 import io, os, re, tempfile
-from framework import coq_bs, coq_z, coq_list, coq_opt
+from framework import coq_bs, coq_z, coq_list, coq_opt, coq_nat
 
 ID = 'C02'
 COQ_IMPORTS = ['G_gff', 'C02_Model']
@@ -322,7 +322,7 @@ def impl(case):
         return _xsvw(build_fts(case['fts']), case['names'], case.get('keystr'), case['_sep'], case['_fmt'], case.get('ft'), case.get('_auto'),
                      case.get('_via', 'str'))
     if k == 'xsvr':
-        return _xsv_read(case['t'], case['_sep'], case['_fmt'], case.get('ft'))
+        return _xsv_read(case['t'], case['_sep'], case['_fmt'], case.get('ft'), case.get('_via', 'str'))
     if k == 'disp':
         return impl_disp(case)
     raise ValueError(k)
@@ -496,11 +496,11 @@ def _xsvw(fts, names, keystr, sepname, fmt, ft, auto, via='str'):
     return [text, res]
 
 
-def _xsv_read(text, sepname, fmt, ft):
+def _xsv_read(text, sepname, fmt, ft, via='str'):
     sep, kw = _xsv_kw(sepname, fmt)
     if ft is not None:
         kw['ftype'] = ft
-    return _read_records(text, fmt, kw)
+    return _read_records(text, fmt, kw, via if isinstance(via, dict) else 'str')     # a foreign table need not be detectable: fmt given
 
 
 def impl_disp(case):
@@ -746,8 +746,20 @@ def model_term(case):
         return 'out (VL [VB false; VB false; VE (bs "BadCase"%bs)])'
 
 
+def _coq_stream(case, fmt, kw):
+    """(position, content) of the stream the implementation reads: the very content and the very seek / readline calls"""
+    via = case['_via']
+    pre = _pre_text(via, fmt, kw)
+    pos = '(PLines %s)' % coq_nat(pre.count('\n')) if pre and via['pre'][0] == 'title' else '(PSeek %s)' % coq_nat(len(pre))
+    return '%s %s' % (pos, coq_bs(pre + case['t']))
+
+
 def _model_term(case):
     k = case['_k']
+    if k == 'text' and isinstance(case.get('_via'), dict):
+        return 'out (run_C02_text_at %s)' % _coq_stream(case, 'gff', {})
+    if k == 'xsvr' and isinstance(case.get('_via'), dict):
+        return 'out (run_C02_xsvr_at x%02x %s %s)' % (ord(SEPS[case['_sep']]), coq_opt(case.get('ft'), coq_bs), _coq_stream(case, case['_fmt'], _xsv_kw(case['_sep'], case['_fmt'])[1]))
     if k == 'text':
         return 'out (run_C02_text %s)' % coq_bs(case['t'])
     if k == 'obj':
@@ -1783,7 +1795,9 @@ def gen_xsvr(rng):
     t = '\n'.join(lines) + ('\n' if rng.random() < 0.9 else '')
     if rng.random() < 0.02:
         t = rng.choice(['', '\n', '\n\n'])
-    c = {'_k': 'xsvr', 't': t, '_sep': sepname, '_fmt': fmt, 'ft': None}
+    c = {'_k': 'xsvr', 't': t, '_sep': sepname, '_fmt': fmt, 'ft': None, '_via': gen_via(rng)}
+    if c['_via'] == 'file':
+        c['_via'] = 'str'
     if rng.random() < 0.3:
         if 'type' in names and rng.random() < 0.75:
             # drop the type column from the text
@@ -2213,8 +2227,9 @@ LEVEL_TEXT = ('Machine-checked Coq theorems about an executable Gallina model of
               'urllib\'s safe set are regenerated, and model and implementation are compared on parsed features and three successive '
               'written texts for generated objects, generated and mutated GFF text, edited features, call histories on shared live objects, '
               'reader/writer options, and on the written table text (byte for byte) and the records read back for TSV/CSV files through '
-              'the real pandas, including tables written by other programs.')
-LEVEL_NOTE = ('Proved (51 theorems, all closed under the global context): unquote(quote s) = s for every byte string and unquote of any mixed '
+              'the real pandas, including tables written by other programs, and for tables that lie inside a stream behind earlier content '
+              '(text and binary streams, fmt given and detected).')
+LEVEL_NOTE = ('Proved (55 theorems, all closed under the global context): unquote(quote s) = s for every byte string and unquote of any mixed '
               'raw / upper- / lower-case escape encoding; quoted fields contain no separator; decimal coordinates round-trip (columns 4/5 are '
               'start+1 and stop); key=value items (also padded with blanks) and the whole attribute column round-trip with order and list '
               'values; one line <-> (type, seqid, source, score, phase, strand, location, attributes) for every combination of present / '
@@ -2248,6 +2263,12 @@ LEVEL_NOTE = ('Proved (51 theorems, all closed under the global context): unquot
               'found by name and by their own extension, fmt wins over the extension; which exception an unknown name / extension raises is '
               'compared with the model but kept outside the domain: the property is silent about it), '
               'C02_dispatch_xsv_roundtrip (C02_xsv_total through write_fts / read_fts with fmt in any spelling and the default separator). '
+              'Tables inside streams (round 7 follow-up; a stream = content + position of the next read, stream_rest models f.seek(offset) and '
+              'n calls of f.readline()): C02_read_at_offset (a GFF text / a table read from the offset behind ANY earlier content is read as '
+              'the text / table alone), C02_read_behind_titles (the same behind any number of title lines skipped with readline()), '
+              'C02_two_tables and C02_two_tables_xsv (two tables written one after the other into one stream: from the second table\'s '
+              'offset that table is read; unbounded, no domain hypotheses). These four are statements about the stream model the harness '
+              'evaluates on the very content and position it hands sugar; their weight lies in that per-case comparison. '
               'Refuted with a witness and excluded from the round-trip theorem\'s domain (rt_C02), but generated and checked by the oracle: '
               'features whose first 5\'->3\' location has attributes of its own (C02_firstloc_overrides_refuted; open finding F39, reported as '
               'KNOWN-FINDING only when it is the sole failure of a case and model and code agree); neighbouring features with one '
@@ -2260,7 +2281,9 @@ LEVEL_NOTE = ('Proved (51 theorems, all closed under the global context): unquot
               'file handle, a BytesIO or a binary file handle, with fmt given and with fmt detected, at offset 0, behind an earlier table '
               'written into the same stream and behind a title line skipped with readline(): the whole grid in the relational check on '
               'every run, and as the transport of about 30 % of the obj / text / xsvw cases, where what is read from the second table\'s '
-              'offset is compared with the model of that table alone and with the oracle; there is no theorem about stream positions), format detection by content (C03 has the theorems) and meta._fmt; everything pandas does beyond the unquoted cell grid (quoting of '
+              'offset is compared with the model and with the oracle; for text and xsvr cases the model is handed the whole stream content and '
+              'the very seek / readline calls (run_C02_text_at, run_C02_xsvr_at), for obj / xsvw cases the model of the table alone; detection '
+              'itself and the position a read leaves behind are not modelled here), format detection by content (C03 has the theorems) and meta._fmt; everything pandas does beyond the unquoted cell grid (quoting of '
               'cells that contain the separator / quotes / line breaks - sugar has no code of its own for it -, dtype inference, NA words: '
               'such cells are outside the model\'s domain flag). '
               'Statement coverage of the modelled functions in the quick tier: 100 % except sugar/_io/tab/xsv.py lines 86-87 and 95-96 '
